@@ -16,7 +16,7 @@ use std::collections::BTreeSet;
 #[derive(Clone, Debug, PartialEq)]
 enum Item {
     /// direct call to an internal sub (index), returning to the next block or not at all
-    Call { target: usize, returns: bool },
+    Call { target: usize, returns: bool, conditional: bool },
     Extern { returns: bool },
     Indirect { returns: bool },
     /// conditional branch to the next block / the last block (no call)
@@ -49,7 +49,8 @@ fn decode(t: &mut Tape) -> Case {
                         _ => t.below(n),
                     };
                     last_target = Some(target);
-                    Item::Call { target, returns: !t.prob(40) }
+                    // a conditional call (`blne f`): the call is the second jump of its block, behind a CBranch
+                    Item::Call { target, returns: !t.prob(40), conditional: t.prob(50) }
                 }
                 6 | 7 => Item::Extern { returns: !t.prob(40) },
                 8 => Item::Indirect { returns: !t.prob(40) },
@@ -83,7 +84,14 @@ fn build(c: &Case) -> Term<Program> {
                 let next = irb::blk_tid(base + 0x10 * (b as u64 + 1));
                 let ret = |r: bool| if r { Some(next.clone()) } else { None };
                 let jmps = match it {
-                    Item::Call { target, returns } => vec![irb::jmp(call_tid(s, b), Jmp::Call { target: sub_tid(*target), return_: ret(*returns) })],
+                    Item::Call { target, returns, conditional } => {
+                        let call = irb::jmp(call_tid(s, b), Jmp::Call { target: sub_tid(*target), return_: ret(*returns) });
+                        if *conditional {
+                            vec![irb::jmp(irb::instr_tid(a, 0), Jmp::CBranch { target: next.clone(), condition: irb::evar(&irb::var("ZF", 1)) }), call]
+                        } else {
+                            vec![call]
+                        }
+                    }
                     Item::Extern { returns } => vec![irb::jmp(call_tid(s, b), Jmp::Call { target: ext_tid.clone(), return_: ret(*returns) })],
                     Item::Indirect { returns } => {
                         vec![irb::jmp(call_tid(s, b), Jmp::CallInd { target: irb::evar(&irb::var("RBX", 8)), return_: ret(*returns) })]
